@@ -14,6 +14,11 @@ Definition C17_full : Prop := ∀ L sgs, wf2 L → supergates L = Ok sgs → sg_
    inconsistently, the dependency graph of the minimal cover is cyclic and networkx.topological_sort raises *)
 Definition C17_total_full : Prop := ∀ L, wf2 L → ∃ sgs, supergates L = Ok sgs.
 
+(* obligation on the regenerated constants of tx.supergates: limit 2, split above one child, absorb a single child, names *)
+Theorem C17_tables_ok : sg_tables_ok = true.
+Proof. vm_compute. reflexivity. Qed.
+Print Assumptions C17_tables_ok.
+
 (* ---- proved for all circuits and all lists: the checkers that decide the clauses per run are sound ---- *)
 Theorem C17_checkers_sound : ∀ L sgs, check_all L sgs = true → sg_spec L sgs.
 Proof. exact check_all_sound. Qed.
@@ -48,13 +53,15 @@ Proof. intros sgs H. apply bool_decide_eq_true, topo_ok_complete, H. Qed.
 Print Assumptions C17_check_topo_complete.
 
 (* ---- proved about the construction (mirrored model), every circuit: part of the shape clause ----
-   missing for C17_full: fan-in EQUALITY (no operand of a gate is cut off), exactly one output, cover, independence *)
+   missing for C17_full: fan-in EQUALITY (no operand of a gate is cut off), cover, independence, order of the returned list;
+   'exactly one output' holds because the model has no value (BadOrder) where the Python result would depend on set order by id *)
 Theorem C17_construction_partial : ∀ L sgs, supergates L = Ok sgs →
-  Forall (λ sg, c_bbs sg = ∅ ∧
+  Forall (λ sg, c_bbs sg = ∅ ∧ size (outputs (c_g sg)) = 1 ∧
                 ∀ n, n ∈ gates (c_g sg) → n_ty <$> c_g sg !! n = n_ty <$> L !! n ∧ fanin (c_g sg) n ⊆ fanin L n) sgs.
 Proof.
   intros L sgs H. pose proof (supergates_restrict _ _ H) as H1. pose proof (supergates_gate_wiring _ _ H) as H2.
-  rewrite Forall_forall in H1, H2 |- *. intros sg Hsg. split; [apply (H1 sg Hsg)|apply (H2 sg Hsg)].
+  pose proof (supergates_single_output _ _ H) as H3.
+  rewrite Forall_forall in H1, H2, H3 |- *. intros sg Hsg. split; [apply (H1 sg Hsg)|]. split; [apply (H3 sg Hsg)|apply (H2 sg Hsg)].
 Qed.
 Print Assumptions C17_construction_partial.
 
